@@ -481,6 +481,17 @@ impl AbstractTree for Tree {
             .any(|id| !version_lock.latest_version().sealed_memtables.contains(id))
         {
             log::debug!("Not registering tables because flush task processed some sealed memtables which do not exist (anymore)");
+
+            // NOTE: The flushed files are never going to be part of any version,
+            // so do not leave them behind
+            for table in tables {
+                table.mark_as_deleted();
+            }
+
+            for blob_file in blob_files.into_iter().flatten() {
+                blob_file.mark_as_deleted();
+            }
+
             return Ok(());
         }
 
